@@ -11,6 +11,7 @@ import time
 
 VERIF = os.path.dirname(os.path.dirname(os.path.abspath(__file__)))
 REPO = os.environ.get('VERIF_REPO', '/repo')
+SCRATCH = os.environ.get('VERIF_SCRATCH')      # seed runs on scratch copies of the repository: nothing is written into /verif
 COQLIB = os.path.join(VERIF, 'coq', 'lib')
 PROPS = os.path.join(VERIF, 'coq', 'props')
 FORBIDDEN = re.compile(r'\b(Admitted|admit|Axiom|Axioms|Parameter|Parameters|Conjecture|Unset\s+Guard|bypass_check|'
@@ -234,7 +235,7 @@ class Check:
     def __init__(self, pid, tier, seed):
         self.pid, self.tier, self.seed = pid, tier, seed
         self.t0 = time.time()
-        self.run_dir = os.path.join(VERIF, 'coq', 'run', pid)
+        self.run_dir = os.path.join(SCRATCH or os.path.join(VERIF, 'coq'), 'run', pid)
         self.coq = CoqRun(self.run_dir)
         self.failures = []          # Failure objects (concrete failing inputs on the implementation)
         self.unshown = []           # (name, detail): obligations / correspondences that no longer check
@@ -283,11 +284,11 @@ class Check:
             else:
                 violations.append(f)
         rc = 0
-        os.makedirs(os.path.join(VERIF, 'replay'), exist_ok=True)
+        os.makedirs(os.path.join(SCRATCH or VERIF, 'replay'), exist_ok=True)
         if violations:
             f = violations[0]
             h = hashlib.sha1(json.dumps([f.key, f.what], sort_keys=True, default=str).encode()).hexdigest()[:10]
-            path = os.path.join(VERIF, 'replay', f"{pid}-{h}.json")
+            path = os.path.join(SCRATCH or VERIF, 'replay', f"{pid}-{h}.json")
             with open(path, 'w') as fh:
                 json.dump({'property': pid, 'key': f.key, 'what': f.what, 'input': f.data,
                            'broken': [n for n, _ in self.unshown],
@@ -297,7 +298,7 @@ class Check:
             rc = 1
         elif self.unshown and not (self.failures and all(f.key in known_keys for f in self.failures) and self._unshown_explained()):
             h = hashlib.sha1(json.dumps(self.unshown, default=str).encode()).hexdigest()[:10]
-            path = os.path.join(VERIF, 'replay', f"{pid}-unshown-{h}.json")
+            path = os.path.join(SCRATCH or VERIF, 'replay', f"{pid}-unshown-{h}.json")
             with open(path, 'w') as fh:
                 json.dump({'property': pid, 'no_failing_input_found': True,
                            'broken': [{'name': n, 'detail': d} for n, d in self.unshown],
@@ -337,8 +338,8 @@ class Check:
         ev = {'property_id': self.pid, 'tier': self.tier, 'seed': self.seed, 'level': 'proof',
               'coverage': cov, 'assumptions': self.assumptions, 'wall_s': round(time.time() - self.t0, 2),
               'violations': nviol}
-        os.makedirs(os.path.join(VERIF, 'evidence'), exist_ok=True)
-        with open(os.path.join(VERIF, 'evidence', f"{self.pid}.json"), 'w') as fh:
+        os.makedirs(os.path.join(SCRATCH or VERIF, 'evidence'), exist_ok=True)
+        with open(os.path.join(SCRATCH or VERIF, 'evidence', f"{self.pid}.json"), 'w') as fh:
             json.dump(ev, fh, indent=1, default=str)
 
 
